@@ -25,6 +25,11 @@ loop runs to quiescence (virtual time) and the real BaseIOStream is compared wit
   and one with a pending read for READ (the interest set recorded by the in-memory event-loop proxy);
 * epilogue: with unlimited credit every future resolves and the log equals the whole concatenation.
 
+Reuse: a ``rewrite`` op writes the data object of an earlier write again (same stream or a second stream
+with an unlimited transport); each write is judged on its own against the bytes the object held at the
+call.  ``bytearray`` objects are accepted although the signature says bytes | memoryview (labelled
+`bytearray_object`).  write() copies data <= 2 KiB and keeps a view of larger data and the docs say
+nothing about it, hence:
 EITHER class `mutated_after_write_either`: a caller's bytearray is overwritten after write() while
 bytes of it are unsent - every such byte on the wire may be the old or the new value (labelled; all
 other clauses still asserted).
@@ -49,6 +54,12 @@ Sensitivity (quick tier, seed 1, scratch copies of tornado/iostream.py; all caug
       flushed)                                   -> seeds 1,2,3: C12.lost_write_interest (needs the
       concurrently pending read ops ``read``/``feed`` added to the write programs; the recorded interest
       set is checked at every quiescence: unsent bytes => WRITE registered, pending read => READ registered)
+  M14 write() queues the caller's own memoryview object when it already is a 1-D byte view and
+      _StreamBuffer.advance releases a large chunk once it is sent (the SAME memoryview written twice ->
+      ValueError on the released view, bytes never sent)   -> seeds 1,2,3: crash.ValueError@iostream.py:peek
+      (``rewrite`` op: the data object of an earlier write - bytes, bytearray, 1-D 'B' memoryview, cast or
+      sliced view - is written AGAIN to the same stream, behind a partial send of itself or after it
+      completed, or to a second stream; payload = the object's bytes at call time)
   (M7 append: ``new_buf = is_memview or len(b) >= T`` -> ``len(b) >= T`` survives: memoryview entries are
    always > T bytes long, so the mutant is equivalent.)
 """
@@ -109,7 +120,7 @@ SIZES = st.one_of(
     st.integers(1, 300),
     st.integers(1, 6000),
 )
-KINDS = ["bytes", "bytes", "mv", "mv_ba", "mv_slice", "mv_I", "mv_I_slice"]
+KINDS = ["bytes", "bytes", "mv", "mv_ba", "mv_slice", "mv_I", "mv_I_slice", "bytearray"]
 op_s = st.one_of(
     st.tuples(st.just("write"), st.sampled_from(KINDS), SIZES, st.integers(0, 250)),
     st.tuples(st.just("write"), st.sampled_from(KINDS), SIZES, st.integers(0, 250)),
@@ -122,6 +133,10 @@ op_s = st.one_of(
     st.tuples(st.just("chunk"), st.sampled_from([None, 1, 7, 1000, 2047, 2048, 2049, 4096])),
     st.tuples(st.just("flush")),
     st.tuples(st.just("mutate"), st.integers(0, 9)),
+    # REUSE of a caller's data object: the object of an earlier write is written again, to the same stream
+    # (queued behind a partial send of itself, or after it completed) or to a second stream
+    st.tuples(st.just("rewrite"), st.integers(0, 9), st.sampled_from(["same", "same", "other"])),
+    st.tuples(st.just("rewrite"), st.integers(0, 9), st.sampled_from(["same", "same", "other"])),
     st.tuples(st.just("read"), st.sampled_from(["bytes", "until"])),
     st.tuples(st.just("feed"), st.sampled_from([1, 1, 2, 3, 5])),
 )
@@ -144,6 +159,10 @@ def make_data(kind, size, tag):
     if kind == "mv_ba":
         ba = bytearray(pl)
         return memoryview(ba), pl, ba
+    if kind == "bytearray":
+        # not in write()'s signature (bytes | memoryview) but accepted like any buffer object
+        ba = bytearray(pl)
+        return ba, pl, ba
     if kind == "mv_slice":
         off = 1 + tag % 5
         whole = b"\xff" * off + pl + b"\xfe" * 3
@@ -177,6 +196,9 @@ async def scenario(ctx, case, labels, out):
     writes = []
     order = []  # indices in done-callback order
     ba_writes = []  # (W, underlying bytearray)
+    objs = []  # (object handed to write(), underlying bytearray or None, kind) - candidates for reuse
+    s2 = MemoryIOStream()  # second stream for "same object to two streams"
+    E2, futs2 = bytearray(), []
     nwrites = 0
     split_seen = False
 
@@ -255,11 +277,37 @@ async def scenario(ctx, case, labels, out):
 
     for step, op in enumerate(case["ops"]):
         kind = op[0]
-        if kind == "write":
+        if kind in ("write", "rewrite"):
             if nwrites >= 10:
                 continue
+            if kind == "write":
+                obj, pl, ba = make_data(op[1], op[2], op[3])
+                okind = op[1]
+            else:
+                if not objs:
+                    continue
+                obj, ba, okind = objs[op[1] % len(objs)]
+                # the bytes the object holds NOW (a caller's bytearray may have been overwritten meanwhile)
+                pl = bytes(memoryview(obj).cast("B")) if isinstance(obj, memoryview) else bytes(obj)
+                labels.add("same_object_written_again")
+                if len(pl) > 2048:
+                    labels.add("large_object_written_again")
+                if op[2] == "other":
+                    # second stream with a transport that takes everything at once
+                    labels.add("same_object_to_second_stream")
+                    f2 = s2.write(obj)
+                    E2.extend(pl)
+                    futs2.append(f2)
+                    await vtime.settle(pump=s2.pump_once)
+                    if bytes(s2.wire) != bytes(E2):
+                        ctx.fail(P + ".second_stream_wire_not_concatenation", {"step": step, "sent": len(s2.wire), "want": len(E2)})
+                    if not all(f.done() and f.exception() is None for f in futs2):
+                        ctx.fail(P + ".second_stream_future_not_resolved", {"step": step})
+                    await vtime.settle(pump=s.pump_once)
+                    check(step, op)
+                    check_read_and_interest(step, op)
+                    continue
             nwrites += 1
-            obj, pl, ba = make_data(op[1], op[2], op[3])
             pending = len(E) - sent()
             must_refuse = mwbs is not None and len(pl) > 0 and pending + len(pl) > mwbs
             before = (sent(), [w.fut.done() for w in writes])
@@ -272,6 +320,8 @@ async def scenario(ctx, case, labels, out):
                 after = (sent(), [w.fut.done() for w in writes])
                 if after != before:
                     ctx.fail(P + ".refused_write_had_side_effects", {"step": step, "before": before, "after": after})
+                if kind == "write":
+                    objs.append((obj, ba, okind))
             else:
                 if must_refuse:
                     ctx.fail(P + ".accepted_beyond_max_write_buffer_size",
@@ -283,11 +333,13 @@ async def scenario(ctx, case, labels, out):
                 w.fut = fut
                 fut.add_done_callback(cb_for(w))
                 writes.append(w)
+                if kind == "write":
+                    objs.append((obj, ba, okind))
                 if ba is not None:
                     ba_writes.append((w, ba))
-                if op[1] != "bytes":
-                    labels.add("memoryview")
-                    if op[1].startswith("mv_I") and pl:
+                if okind != "bytes":
+                    labels.add("memoryview" if okind != "bytearray" else "bytearray_object")
+                    if okind.startswith("mv_I") and pl:
                         labels.add("memoryview_nonbyte_format")
                 if len(pl) == 0:
                     labels.add("zero_length_write" + ("_with_pending" if pending else ""))
@@ -325,15 +377,16 @@ async def scenario(ctx, case, labels, out):
             rs["fed"] += len(chunk)
         elif kind == "mutate":
             if ba_writes:
-                w, ba = ba_writes[op[1] % len(ba_writes)]
+                _, ba = ba_writes[op[1] % len(ba_writes)]
                 n = sent()
-                lo = max(n, w.end - w.size)
-                if lo < w.end:
+                sharing = [w for w, b2 in ba_writes if b2 is ba and max(n, w.end - w.size) < w.end]
+                if sharing:
                     for i in range(len(ba)):
                         ba[i] ^= 0xFF
-                    off = w.end - w.size
-                    for i in range(lo, w.end):
-                        A[i] = ba[i - off]
+                    for w in sharing:
+                        off = w.end - w.size
+                        for i in range(max(n, off), w.end):
+                            A[i] = ba[i - off]
                     either = True
                     labels.add("mutated_after_write_either")
         await vtime.settle(pump=s.pump_once)
@@ -355,6 +408,7 @@ async def scenario(ctx, case, labels, out):
     if nonempty >= 2:
         labels.add("multi_write")
     s.close()
+    s2.close()
     await vtime.settle(pump=s.pump_once)
 
 
